@@ -400,7 +400,7 @@ func base() []Strat {
 			Fix: func(c *reg.Config) { c.P[3] %= 7 },
 			Build: func(c reg.Config) strategy.Strategy {
 				s := strend.NewTsiStrategyWith(c.P[0], c.P[1], c.P[2])
-				if c.P[3] != 0 {
+				if len(c.P) > 3 && c.P[3] != 0 { // (cases saved before the kind existed have three parameters)
 					s.Signal = maOf(c.P[3], c.P[2]) // the exported field takes any trend.Ma
 				}
 				return s
@@ -514,7 +514,9 @@ func base() []Strat {
 			},
 		},
 		{
-			Name: "TripleRsi", InRegistry: true, Params: []reg.Param{per("rsi", 5), per("sma", 200), per("down", 3)}, FParams: []float64{60, 30, 50},
+			// the three RSI levels are drawn independently of each other (tenths of the scale, from
+			// the integer parameters), so that every order of BuySignalAt, BuyAt and SellAt occurs
+			Name: "TripleRsi", InRegistry: true, Params: []reg.Param{per("rsi", 5), per("sma", 200), per("down", 3), per("buy_signal_tenths", 6), per("buy_tenths", 3), per("sell_tenths", 5)},
 			Fix: func(c *reg.Config) {
 				// "It assumes that the moving average period is longer than the RSI period."
 				if c.P[1] <= c.P[0] {
@@ -522,7 +524,11 @@ func base() []Strat {
 				}
 			},
 			Build: func(c reg.Config) strategy.Strategy {
-				return smom.NewTripleRsiStrategyWith(c.P[0], c.P[1], c.P[2], c.F[0], c.F[1], c.F[2])
+				if len(c.P) < 6 && len(c.F) >= 3 {
+					// a case saved before the levels became integer parameters
+					return smom.NewTripleRsiStrategyWith(c.P[0], c.P[1], c.P[2], c.F[0], c.F[1], c.F[2])
+				}
+				return smom.NewTripleRsiStrategyWith(c.P[0], c.P[1], c.P[2], float64(10*c.P[3]), float64(10*c.P[4]), float64(10*c.P[5]))
 			},
 			Warm: func(s strategy.Strategy) int {
 				t := s.(*smom.TripleRsiStrategy)
